@@ -124,7 +124,8 @@ class Gen:
         elif k < 0.98:
             self.ops.append("align %d" % r.choice((4, 8, 16, 64)))
         else:
-            self.ops.append(r.choice(("flatten", "resolve", "bind 99", "jmp jmp d 99" if self.arch != "a64" else "a64 b 99 0",
+            # (no `resolve` in the middle: resolving against a layout that later emissions invalidate is a usage error)
+            self.ops.append(r.choice(("flatten", "flatten", "bind 99", "jmp jmp d 99" if self.arch != "a64" else "a64 b 99 0",
                                       "elabel 99 8", "section 9", "newsection 3 0" if not self.c04 else "align 5", "align 3", "elabel 0 3")))
 
     def finish(self, base, bind_rest=0.85):
@@ -379,7 +380,9 @@ def prepare(res, pid, mods):
     return vlib.build_harness("c03"), broken
 
 
-ASSUMPTIONS = ["code buffers are byte lists: capacity, realloc and grow_buffer are invisible; emission is append-only (no set_offset)",
+ASSUMPTIONS = ["programs call resolve_cross_section_fixups only after the final flatten (resolving against a stale layout is a usage error); "
+               "user code never switches to the implicit .addrtab section (harness and model answer InvalidSection)",
+               "code buffers are byte lists: capacity, realloc and grow_buffer are invisible; emission is append-only (no set_offset)",
                "non-field instruction bytes come from a menu of shapes (compared byte for byte with the real encoders, not proved: C01/C02)",
                "align is exercised in AlignMode::kZero only; labels are anonymous (named labels / Builder not modelled)",
                "ADRP is judged with page-aligned bases; asmjit only encodes ADRP when target and site are congruent mod 4096",
